@@ -149,11 +149,11 @@ def run_brng(ctx, c):
             out += fb.read()
         if S.moved or len(sizes) > 1:
             ctx.nontrivial("brngCTR", c["iv"], S.moved > 0, tuple(s % 32 for s in sizes))
-        # the one-shot equals the stepped run only when every request but the last is a whole number of blocks
-        # (header: a new request starts a new block); compare on that sub-domain, otherwise compare prefix-by-request
+        # brng.h: blocks of 32 octets are buffered, left-over octets of the last block are returned first; with zero-filled buffers
+        # (additional word X = 0 either way) every partition gives the octets of the one-shot call
+        if out != exp:
+            raise Fail("brngCTR stepped != one-shot (iv=%s sizes=%s moved=%d)" % (c["iv"], sizes, S.moved))
         if all(s % 32 == 0 for s in sizes[:-1]):
-            if out != exp:
-                raise Fail("brngCTR stepped != one-shot (iv=%s sizes=%s moved=%d)" % (c["iv"], sizes, S.moved))
             o = x.out(32); x.call("brngCTRStepG", o, S.b, ret="v")
             if o.read() != exp_iv:
                 raise Fail("brngCTRStepG != iv returned by brngCTRRand (iv=%s sizes=%s)" % (c["iv"], sizes))
